@@ -175,6 +175,8 @@ func e1BaseGrid(tier string) []e1Grid {
 		{mcfg("mpegts", false, 3, "h264b"), "reorder"},
 		{mcfg("fmp4", false, 3, "h264b"), "reorder"},
 		{mcfg("ll", false, 7, "h264b"), "reorder"},
+		{mcfg("fmp4", false, 3, "h265b"), "reorder"},
+		{mcfg("ll", false, 7, "h265b", "aac44"), "reorder"},
 		{mcfg("mpegts", false, 3, "h264"), "zero"},
 		{mcfg("fmp4", false, 3, "h264"), "zero"},
 		{mcfg("ll", false, 7, "h264", "aac44"), "zero"},
